@@ -1042,8 +1042,21 @@ func compareIso(e *ev.Env, c *ev.Case, ic isoCase, detail func(map[string]any) m
 }
 
 // serveAdaptor hands the requests one after the other to adaptor.FiberApp(app).
-func serveAdaptor(app *fiber.App, s *isoSink, reqs []wreq) served {
+func serveAdaptor(app *fiber.App, s *isoSink, reqs []wreq, single bool) served {
 	h := adaptor.FiberApp(app)
+	// single: the net/http server also has single fiber handlers mounted through
+	// adaptor.FiberHandlerFunc (they share the adaptor's pool of fasthttp contexts with the app);
+	// the history's /locals requests go to such a handler
+	lone := adaptor.FiberHandlerFunc(func(c fiber.Ctx) error {
+		id := c.Query("id", "lone")
+		c.Locals("user", "user-"+id)
+		c.Locals("reqid", id)
+		c.Locals("secret", "secret-"+id)
+		c.Locals(localKey{1}, "lk-"+id)
+		c.Locals(localKeyT(7), "lkt-"+id)
+		c.Locals(42, "int-"+id)
+		return c.SendString("lone handler " + id)
+	})
 	var sv served
 	for i, rq := range reqs {
 		hr, err := http.ReadRequest(bufio.NewReader(bytes.NewReader(rq.Raw)))
@@ -1072,7 +1085,11 @@ func serveAdaptor(app *fiber.App, s *isoSink, reqs []wreq) served {
 		}
 		s.reqSeq++
 		rec := httptest.NewRecorder()
-		h.ServeHTTP(rec, hr)
+		if single && i < len(reqs)-1 && (strings.HasPrefix(hr.URL.Path, "/locals/") || strings.HasPrefix(hr.URL.Path, "/base")) {
+			lone.ServeHTTP(rec, hr)
+		} else {
+			h.ServeHTTP(rec, hr)
+		}
 		sv.responses++
 		if i == len(reqs)-1 {
 			res := rec.Result()
@@ -1104,17 +1121,18 @@ func judgeAdaptor(e *ev.Env, c *ev.Case, ic isoCase, probeReq wreq) {
 	freshPools()
 	fapp, fs := isoBuild(ic.Cfg)
 	fs.reqSeq = 1000
-	fsv := serveAdaptor(fapp, fs, []wreq{probeReq})
+	single := gen.Hash64(c.ID)%2 == 0
+	fsv := serveAdaptor(fapp, fs, []wreq{probeReq}, single)
 	freshPools()
 	happ, hs := isoBuild(ic.Cfg)
 	hs.reqSeq = 1000
 	script := append(append([]wreq(nil), ic.History...), probeReq)
-	hsv := serveAdaptor(happ, hs, script)
+	hsv := serveAdaptor(happ, hs, script, single)
 	e.Eval(1)
 	e.Stat("requests", int64(len(script)+1))
 	e.Stat("adaptor_cases", 1)
 	detail := func(extra map[string]any) map[string]any {
-		d := map[string]any{"drive": "net/http -> middleware/adaptor.FiberApp", "cfg": ic.Cfg.String(), "probe": string(ic.Probe.Raw), "history_kinds": kindsOf(ic.History)}
+		d := map[string]any{"drive": "net/http -> middleware/adaptor.FiberApp", "history_locals_requests_through_FiberHandlerFunc": single, "cfg": ic.Cfg.String(), "probe": string(ic.Probe.Raw), "history_kinds": kindsOf(ic.History)}
 		if len(ic.History) <= 3 {
 			var hh []string
 			for _, h := range ic.History {
